@@ -8,6 +8,8 @@ import Mathlib.Tactic.NormNum.Prime
 import Mathlib.Algebra.BigOperators.Group.List.Basic
 import BronVerif.Lemmas.Weierstrass
 import BronVerif.Lemmas.Edwards
+import BronVerif.Lemmas.Window
+import BronVerif.Lemmas.MulShape
 import BronVerif.Drive.C14
 /-!
 # C14 — curve arithmetic equals the mathematical group operation (property theorems)
@@ -321,7 +323,8 @@ def ed_complete_assoc_statement : Prop :=
 (`φ (x + y) = W.add a (φ x) (φ y)`, `φ 0 = inf`) — for the curves of the library `G` is the group
 of rational points; that `W.add` is that group law is the content of Mathlib's
 `WeierstrassCurve.Affine.Point` and is taken as the hypothesis `hadd`.  The Go windowed ladder and
-Pippenger bucket method are NOT translated: they are tied to `W.smul`/`W.msm` by correspondence only. -/
+Pippenger bucket method are modelled by hand in `Model/Window.lean` (section "windowed ladder and
+bucket method" below). -/
 
 theorem W_double_eq_add_self (a : F) (P : WPt F) : W.double a P = W.add a P P := by
   cases P with
@@ -383,6 +386,124 @@ theorem msm_spec {G : Type} [AddMonoid G] (a : F) (φ : G → WPt F) (h0 : φ 0 
       rw [smul_spec a φ h0 hadd, ← hadd]
       exact ih gs (acc + k • g)
 
+
+/-! ## The Go windowed ladder and Pippenger bucket method (`pkg/base/algebra/impl/mul.go`)
+
+`Model/Window.lean` is a hand-written, statement-by-statement model of `ScalarMulLowLevel`,
+`MultiScalarMulLowLevel` and its `getWindow` closure over an abstract additive structure; the driver
+executes it on every `smulg`/`msmg`/`smulrawb`/`msmrawb`/`msm` line (over `ℤ/n` resp. the runtime
+curve points) and `msm_structure_matches_model` ties its constants and loop shapes to the Go source.
+Scalars are arbitrary little-endian byte strings (any length, also ≥ the group order, also empty);
+`k = leToNat bytes`. -/
+
+section window
+open BronVerif.Window BronVerif.Lemmas.Window
+
+/-- **`getWindow` is the base-`2^w` digit**: the bit-by-bit extraction (with its `break` past the end
+of the scalar) returns `⌊k / 2^start⌋ mod 2^w`, for every width, start and byte string. -/
+theorem get_window_spec (w : Nat) (b : Array UInt8) (start : Nat) :
+    getWindow w b start = (leToNat b / 2 ^ start) % 2 ^ w := by
+  rw [getWindow_eq, Nat.shiftRight_eq_div_pow]
+
+/-- **`window_digits_sum`**: the digits the bucket method / the ladder read — `getWindow w b (w·j)` for
+`j < numWindows = ⌈8·len / w⌉` — recompose the scalar, `Σⱼ digitⱼ · 2^(w·j) = k`, for every width
+`w ≥ 1` (in particular `1 ≤ w ≤ 16`, windows that straddle one or two byte boundaries, a top window
+that runs past the end) and every byte string. -/
+theorem window_digits_sum (w : Nat) (hw : 1 ≤ w) (b : Array UInt8) :
+    ((List.range (numWindows (b.size * 8) w)).map fun j => getWindow w b (j * w) * 2 ^ (j * w)).sum =
+      leToNat b := by
+  simp only [getWindow_eq]
+  rw [digits_sum_mod, Nat.mod_eq_of_lt]
+  refine lt_of_lt_of_le (leToNat_lt b) (Nat.pow_le_pow_right (by norm_num) ?_)
+  have := numWindows_cover hw (b.size * 8)
+  omega
+
+/-- more windows than needed (the longest scalar of an MSM determines `numWindows`): still exact -/
+theorem window_digits_sum_of_le (w : Nat) (hw : 1 ≤ w) (b : Array UInt8) (bits : Nat) (hb : b.size * 8 ≤ bits) :
+    ((List.range (numWindows bits w)).map fun j => getWindow w b (j * w) * 2 ^ (j * w)).sum = leToNat b := by
+  simp only [getWindow_eq]
+  rw [digits_sum_mod, Nat.mod_eq_of_lt]
+  refine lt_of_lt_of_le (leToNat_lt b) (Nat.pow_le_pow_right (by norm_num) ?_)
+  have := numWindows_cover hw bits
+  omega
+
+/-- **`smul_nibble_spec`**: the Go-literal model of `ScalarMulLowLevel` (table of 16 built by
+double-and-add-one, bytes from the last to the first, high nibble then low nibble, four doublings
+before each table addition) returns `k • P` in every additive monoid, for every byte string. -/
+theorem smul_nibble_spec {G : Type} [AddMonoid G] (P : G) (s : Array UInt8) :
+    smulNibble P s = leToNat s • P :=
+  smulNibble_eq P s
+
+/-- **`windowed_smul_spec`**: the fixed-window ladder of any width `w ≥ 1` (table of `2^w` multiples,
+`getWindow` digits from the top window down, `w` doublings then one table addition per window)
+returns `k • P` in every additive monoid. -/
+theorem windowed_smul_spec {G : Type} [AddMonoid G] (w : Nat) (hw : 1 ≤ w) (P : G) (s : Array UInt8) :
+    windowedSmul w P s = leToNat s • P :=
+  windowedSmul_eq hw P s
+
+/-- for `w = 4` the `getWindow` digits are the nibbles the Go ladder reads -/
+theorem nibble_digits (x : UInt8) (xs : List UInt8) :
+    getWindow 4 (x :: xs).toArray 0 = x.toNat &&& 0b1111 ∧
+    getWindow 4 (x :: xs).toArray 4 = (x.toNat >>> 4) &&& 0b1111 := by
+  have hx : x.toNat < 256 := x.toNat_lt
+  have e : (0b1111 : Nat) = 2 ^ 4 - 1 := by decide
+  rw [getWindow_eq, getWindow_eq, e, Nat.and_two_pow_sub_one_eq_mod, Nat.and_two_pow_sub_one_eq_mod]
+  simp only [leToNat, leToNatL, Nat.shiftRight_eq_div_pow]
+  constructor <;> omega
+
+/-- **`bucket_msm_spec`**: the model of `MultiScalarMulLowLevel` — empty input, the naive path
+`n ≤ 7`, "all scalars empty", and the bucket method with `w = clamp(bits.Len n, 2, 16)`,
+`numWindows = ⌈maxBits / w⌉`, scatter into `2^w` buckets skipping digit 0, running-sum collapse from
+the highest bucket down skipping identity buckets — returns `Σ kᵢ • Pᵢ` in every additive
+commutative monoid, for vectors of every length (0 and 1 included) and scalars of arbitrary,
+possibly different, byte lengths.  `isz` is the implementation's `IsZero` (only its soundness is
+used). -/
+theorem bucket_msm_spec {G : Type} [AddCommMonoid G] (isz : G → Bool) (hisz : ∀ x, isz x = true → x = 0)
+    (scalars : List (Array UInt8)) (points : List G) (hlen : scalars.length = points.length) :
+    msm isz scalars points = (List.zipWith (fun b P => leToNat b • P) scalars points).sum :=
+  msm_eq isz hisz scalars points hlen
+
+/-- the bucket method alone, for ANY width `w ≥ 1` and any vector length (the Go code only reaches
+it with `n ≥ 8`, `w = msmWidth n`) -/
+theorem bucket_core_spec {G : Type} [AddCommMonoid G] (isz : G → Bool) (hisz : ∀ x, isz x = true → x = 0)
+    (w : Nat) (hw : 1 ≤ w) (scalars : List (Array UInt8)) (points : List G) :
+    bucketCore isz w (numWindows (maxBits scalars) w) scalars points =
+      (List.zipWith (fun b P => leToNat b • P) scalars points).sum :=
+  bucketCore_eq isz hisz hw scalars points
+
+/-- the width function: `bits.Len n` clamped to `[2, 16]` -/
+theorem msm_width_spec (n : Nat) :
+    2 ≤ msmWidth n ∧ msmWidth n ≤ 16 ∧ (2 ≤ n → n < 2 ^ 16 → 2 ^ (msmWidth n - 1) ≤ n ∧ n < 2 ^ msmWidth n) := by
+  unfold msmWidth bitsLen clampLo clampHi
+  refine ⟨by simp only; split_ifs <;> omega, by simp only; split_ifs <;> omega, ?_⟩
+  intro h2 h16
+  have hn : n ≠ 0 := by omega
+  have hlog : n.log2 < 16 := (Nat.log2_lt hn).mpr h16
+  have h1 : 1 ≤ n.log2 := by
+    by_contra h
+    have : n.log2 < 1 := by omega
+    have := (Nat.log2_lt hn).mp this
+    omega
+  simp only [hn, if_false]
+  have e1 : ¬ (n.log2 + 1 < 2) := by omega
+  have e2 : ¬ (n.log2 + 1 > 16) := by omega
+  simp only [e1, e2, if_false, Nat.add_sub_cancel]
+  exact ⟨Nat.log2_self_le hn, Nat.lt_log2_self⟩
+
+/-- **`msm_structure_matches_model`** (T): the statement-by-statement structure of
+`ScalarMulLowLevel` and `MultiScalarMulLowLevel` REGENERATED from the Go source equals the structure
+the model mirrors, with every threshold / mask / loop bound spliced in from the model's constants
+(`Lemmas/MulShape.lean`): table size `16 = 2^4`, four doublings per nibble, `>> 4`, `& 15`, naive
+path `n ≤ 7`, clamp `[2, 16]`, `numWindows = (maxBits + w − 1)/w`, the bit loop of `getWindow` with its
+`break`, `startBit = wIdx·w`, the `win == 0` skip, the running-sum loop `k = 2^w − 1 … 1`. -/
+theorem msm_structure_matches_model :
+    Gen.MulFacts.scalarMul = MulShape.expectedScalarMul ∧
+    Gen.MulFacts.multiScalarMul = MulShape.expectedMultiScalarMul ∧
+    tableSize = 2 ^ nibbleBits := by
+  decide +kernel
+
+end window
+
 /-! ## Non-vacuity: concrete instances over `ZMod 7` -/
 
 instance : Fact (Nat.Prime 7) := ⟨by norm_num⟩
@@ -419,5 +540,43 @@ example (k : Nat) (g : ZMod 2) : W.smul (1 : ZMod 7) k (phi2 g) = phi2 (k • g)
 
 example : W.msm (1 : ZMod 7) [3, 0, 5] ([1, 1, 1].map phi2) = phi2 ((List.zipWith (fun k g => k • g) [3, 0, 5] [1, 1, 1]).foldl (· + ·) 0) :=
   msm_spec 1 phi2 (by decide) (by decide) _ _
+
+/-! non-vacuity of the window theorems -/
+
+open BronVerif.Window in
+/-- `w = 11` (vector length 1024 … 2047): the window starting at bit 22 of `2^32` straddles three
+bytes; its digit is `2^10` -/
+example : getWindow 11 #[0, 0, 0, 0, 1, 0, 0, 0] 22 = 2 ^ 10 := by decide
+
+open BronVerif.Window in
+example : ((List.range (numWindows (8 * 8) 11)).map fun j =>
+    getWindow 11 #[0, 0, 0, 0, 1, 0, 0, 0] (j * 11) * 2 ^ (j * 11)).sum = 2 ^ 32 :=
+  window_digits_sum 11 (by decide) #[0, 0, 0, 0, 1, 0, 0, 0]
+
+open BronVerif.Window in
+example (P : ZMod 1009) : smulNibble P #[0xff, 0x12, 0x80] = (0x8012ff : Nat) • P :=
+  smul_nibble_spec P _
+
+open BronVerif.Window in
+example (P : ZMod 1009) : windowedSmul 11 P #[0xff, 0x12, 0x80] = (0x8012ff : Nat) • P :=
+  windowed_smul_spec 11 (by decide) P _
+
+open BronVerif.Window in
+/-- nine points (bucket path, `w = 4`), scalars of different lengths including an empty one -/
+example (P : ZMod 1009) :
+    msm (fun x : ZMod 1009 => decide (x = 0)) [#[3], #[0, 1], #[], #[255, 255, 255], #[7], #[1], #[2], #[9], #[16]]
+        [P, 2 • P, P, P, 5, 6, 7, 8, 9] =
+      (List.zipWith (fun b Q => leToNat b • Q) [#[3], #[0, 1], #[], #[255, 255, 255], #[7], #[1], #[2], #[9], #[16]]
+        [P, 2 • P, P, P, 5, 6, 7, 8, 9]).sum :=
+  bucket_msm_spec _ (by intro x hx; simpa using hx) _ _ rfl
+
+open BronVerif.Window in
+/-- lengths 0 and 1 -/
+example (P : ZMod 1009) : msm (fun x : ZMod 1009 => decide (x = 0)) [] ([] : List (ZMod 1009)) = 0 ∧
+    msm (fun x : ZMod 1009 => decide (x = 0)) [#[5, 1]] [P] = (261 : Nat) • P := by
+  constructor
+  · simpa using bucket_msm_spec (G := ZMod 1009) (fun x => decide (x = 0)) (by intro x hx; simpa using hx) [] [] rfl
+  · have := bucket_msm_spec (G := ZMod 1009) (fun x => decide (x = 0)) (by intro x hx; simpa using hx) [#[5, 1]] [P] rfl
+    simpa [leToNat, leToNatL] using this
 
 end BronVerif.Props.C14
